@@ -86,16 +86,29 @@ def tasks(tier, seed):
                 for delay in (0.0, 0.5, 1.0, 1.25, 1.5, 2.5, 4.0, 4.25, 5.0):
                     if delay > 2.5 and not ping:
                         continue
-                    if tier == "quick" and (tls or reaction == "silent") and delay not in (0.0, 1.0, 1.5, 4.0):
+                    if tier == "quick" and delay not in (0.0, 1.0, 1.5, 4.0):
                         continue
-                    ts.append({"kind": "closer", "ping": ping, "tls": tls, "reaction": reaction, "line": False, "delay": delay,
-                               "bound": 1 if tier == "quick" else 2, "name": "closer/sync/ping=%s/tls=%s/%s/delay=%.2f" % (ping, tls, reaction, delay)})
+                    if tier == "quick" and (tls or reaction == "silent") and delay not in ((0.0, 1.0, 1.5, 4.0) if not (tls and ping) else (0.0, 1.0)):
+                        continue
+                    for lat in ((0.25, 0.0) if reaction != "silent" and not (tier == "quick" and (tls or delay not in (0.0, 1.0))) else (0.25,)):
+                        nsh = 4 if ping else 1
+                        for k in range(nsh):
+                            ts.append({"kind": "closer", "ping": ping, "tls": tls, "reaction": reaction, "line": False, "delay": delay, "lat": lat,
+                                       "shard": [k, nsh] if nsh > 1 else None,
+                                       "bound": 1 if tier == "quick" else 2, "name": "closer/sync/ping=%s/tls=%s/%s/delay=%.2f/lat=%.2f/%d" % (ping, tls, reaction, delay, lat, k)})
     line_cases = [(False, False, "reply+eof")] if tier == "quick" else [(p, t, r) for p in (False, True) for t in (False, True) for r in ("reply+eof", "silent")]
     for ping, tls, reaction in line_cases:
         for delay in ((0.0, 1.0) if tier == "quick" else (0.0, 0.5, 1.0, 1.5, 4.0)):
-            for k in range(8):
-                ts.append({"kind": "closer", "ping": ping, "tls": tls, "reaction": reaction, "line": True, "bound": 1, "delay": delay, "shard": [k, 8],
-                           "name": "closer/line/ping=%s/tls=%s/%s/delay=%.2f/shard%d" % (ping, tls, reaction, delay, k)})
+            # lat: latency of the server's answer to the client's close frame. With 0 the closer's close() completes without ever blocking, i.e. while
+            # the loop thread is still parked at the preempted line (a thread that is merely slow)
+            for lat in (0.25, 0.0):
+                if tier == "quick" and delay == 1.0 and lat == 0.25:
+                    continue
+                for k in range(8):
+                    ts.append({"kind": "closer", "ping": ping, "tls": tls, "reaction": reaction, "line": True, "bound": 1, "delay": delay, "shard": [k, 8], "lat": lat,
+                               "name": "closer/line/ping=%s/tls=%s/%s/delay=%.2f/lat=%.2f/shard%d" % (ping, tls, reaction, delay, lat, k)})
+    # long tasks first (better packing on the worker pool)
+    ts.sort(key=lambda t: (0 if t.get("line") else (1 if t["kind"] == "closer" and t["ping"] else 2)))
     return ts
 
 
@@ -137,7 +150,7 @@ def make_spec(desc):
             spec["second_no_raise"] = True
     else:
         def mk(reaction=desc["reaction"]):
-            return tnet.ServerPeer(script=traffic() + [(40.0, "eof", b"")], on_ping=("all", 0.25), on_close=reaction, close_latency=0.25)
+            return tnet.ServerPeer(script=traffic() + [(40.0, "eof", b"")], on_ping=("all", 0.25), on_close=reaction, close_latency=desc.get("lat", 0.25))
         spec["attempts"] = [mk]
         spec["closer"] = {"delay": desc.get("delay", 0.0)}
         spec["line_level"] = desc["line"]
